@@ -236,6 +236,11 @@ class Gen:
         if ty == "B" and self.rng.random() < 0.5:
             ty = "T"
         tgt = self.target(env, ty)
+        if ty == "T" and depth == 0 and self.rng.random() < 0.06:
+            # re-assign a tensor parameter (an alias of its incoming value may be returned: fixed by 3b56caa)
+            tp = [n for n, t in self.p.params if t == "T"]
+            tgt = self.rng.choice(tp)
+            self.p.features.add("param-reassigned")
         if tgt is None:
             return None
         e = self.expr(env, ty, 0)
@@ -262,14 +267,14 @@ class Gen:
         b = self.target(env, "T", avoid=(a,))
         if not a or not b or a == b:
             return None
-        # later right-hand sides must not read earlier targets (finding C01-D25 lies there)
-        env2 = {k: v for k, v in env.items() if k not in (a, b)}
-        if not self.vars_of(env2, "T"):
-            return None
-        e1 = self.expr(env2, "T", 1)
-        e2 = self.expr(env2, "T", 1)
-        if ast_is_name(e1) or ast_is_name(e2):
-            e1, e2 = f"op.Identity({e1})", f"op.Identity({e2})"
+        # right-hand sides may read the targets (Python evaluates them all first; fixed by 87ad64d)
+        if a in env and b in env and env[a] == env[b] == "T" and self.rng.random() < 0.4:
+            self.p.features.add("parallel-swap")
+            return ("par", [a, b], [b, a])
+        e1 = self.expr(env, "T", 1)
+        e2 = self.expr(env, "T", 1)
+        if a in env or b in env:
+            self.p.features.add("parallel-reads-targets")
         env[a] = "T"
         env[b] = "T"
         self.p.features.add("parallel-assign")
@@ -364,6 +369,14 @@ class Gen:
             st = self.gen_assign(e2, depth + 1)
             if st:
                 body.append(st)
+        over = [v for v in carried_c if v != carried and env.get(v) == "T"]
+        if over and self.rng.random() < 0.25:
+            # pure overwrite of a variable that is live after the loop (zero-trip path matters: fixed by 4304e8f)
+            ov = self.rng.choice(over)
+            body.append(("assign", ov, f"op.Mul({self.rng.choice([n for n, t in self.p.params if t == 'T'])}, 2.0)"))
+            self.p.features.add("loop-pure-overwrite")
+            if ov not in saved_must:
+                saved_must.append(ov)
         brk = None
         if self.rng.random() < 0.3:
             bv = next((v for v in self.fresh["B"] if v not in e2), None)
@@ -849,8 +862,32 @@ def pred_d30(fn: ast.FunctionDef) -> bool:
     return False
 
 
-PREDICATES = {"C01-D23": pred_d23, "C01-D24": pred_d24, "C01-D25": pred_d25, "C01-D26": pred_d26, "C01-D27": pred_d27,
-              "C01-D28": pred_d28, "C01-D29": pred_d29, "C01-D30": pred_d30}
+def pred_d31(fn: ast.FunctionDef) -> bool:
+    """the target name of a `for` loop also occurs outside the bodies of the loops it is the target of (Python
+    leaves the last index in it; the converter keeps the pre-loop binding)"""
+    loops = [l for l in ast.walk(fn) if isinstance(l, ast.For) and isinstance(l.target, ast.Name)]
+    for name in {l.target.id for l in loops}:
+        covered = set()
+        for l in loops:
+            if l.target.id == name:
+                covered.add(id(l.target))
+                for b in l.body:
+                    covered |= {id(n) for n in ast.walk(b)}
+        if any(isinstance(n, ast.Name) and n.id == name and id(n) not in covered for n in ast.walk(fn)):
+            return True
+    return False
+
+
+def pred_d33(fn: ast.FunctionDef) -> bool:
+    """a top-level `return` that is not the last statement of the function body"""
+    return any(isinstance(s, ast.Return) for s in fn.body[:-1])
+
+
+# C01-D23, D25, D26, D30 are fixed in /repo (4304e8f, 87ad64d, 3b56caa, cbb81e7): their regions are generated again
+# (the predicates stay available as `FIXED_PREDICATES` for the evidence histogram).
+PREDICATES = {"C01-D24": pred_d24, "C01-D27": pred_d27, "C01-D28": pred_d28, "C01-D29": pred_d29,
+              "C01-D31": pred_d31, "C01-D33": pred_d33}
+FIXED_PREDICATES = {"C01-D23": pred_d23, "C01-D25": pred_d25, "C01-D26": pred_d26, "C01-D30": pred_d30}
 
 
 def classify_known(src: str) -> list[str]:
